@@ -67,6 +67,11 @@ var c12Entries = []c12Entry{
 	{"os.read_file", modos.ReadFile, func() []object.Object { return []object.Object{c12Path()} }, "ReadFile"},
 	{"os.write_file", modos.WriteFile, func() []object.Object { return []object.Object{c12Path(), strArg("x")} }, "WriteFile"},
 	{"os.read_dir", modos.ReadDir, func() []object.Object { return []object.Object{strArg("/")} }, "ReadDir"},
+	{"os.read_dir-no-argument", modos.ReadDir, func() []object.Object { return nil }, "Getwd"},
+	{"ls-no-argument-lists-host-cwd", modos.ReadDir, func() []object.Object { return nil }, "ReadDir"},
+	{"os.stdin", c12Attr("stdin"), func() []object.Object { return nil }, "Stdin"},
+	{"os.stdout", c12Attr("stdout"), func() []object.Object { return nil }, "Stdout"},
+	{"os.stderr", c12Attr("stderr"), func() []object.Object { return nil }, "Stderr"},
 	{"os.user_cache_dir", modos.UserCacheDir, func() []object.Object { return nil }, "UserCacheDir"},
 	{"os.user_config_dir", modos.UserConfigDir, func() []object.Object { return nil }, "UserConfigDir"},
 	{"os.user_home_dir", modos.UserHomeDir, func() []object.Object { return nil }, "UserHomeDir"},
@@ -86,6 +91,34 @@ var c12Entries = []c12Entry{
 	{"fmt.printf", modfmt.Printf, func() []object.Object { return []object.Object{strArg("%s"), strArg(verifrt.String(1))} }, "Stdout"},
 	{"printf-int", modfmt.Printf, func() []object.Object { return []object.Object{strArg("%d"), object.NewInt(verifrt.Int64())} }, "Stdout"},
 	{"filepath.abs", modfilepath.Abs, func() []object.Object { return []object.Object{strArg("rel")} }, "Getwd"},
+}
+
+// c12Attr resolves a dynamic attribute of the os module (os.stdin/stdout/stderr)
+// and writes/reads through the file object it yields.
+func c12Attr(name string) object.BuiltinFunction {
+	return func(ctx context.Context, args ...object.Object) object.Object {
+		attr, ok := modos.Module().GetAttr(name)
+		if !ok {
+			return object.Errorf("no such attribute")
+		}
+		if d, isDyn := attr.(*object.DynamicAttr); isDyn {
+			v, err := d.ResolveAttr(ctx, name)
+			if err != nil {
+				return object.NewError(err)
+			}
+			attr = v
+		}
+		f, isFile := attr.(*object.File)
+		if !isFile {
+			return object.Errorf("not a file")
+		}
+		if name != "stdin" {
+			if w, found := f.GetAttr("write"); found {
+				w.(*object.Builtin).Call(ctx, object.NewString("x"))
+			}
+		}
+		return f
+	}
 }
 
 // HarnessC12HostOSMediatesEverything: each OS-facing builtin, called with a
